@@ -1,5 +1,5 @@
 PROP = dict(
-    coq=["Pause/PauseHarness.vo"],
+    coq=["Pause/PauseHarness.vo", "Pipe/StopHarness.vo", "Pipe/WarcStopProofs.vo"],
     legs=[
         dict(driver="pause", binary="zpause", quick=900, thorough=8000, shard=300,
              monitors=["calls_complete (no Pause/Resume call in progress once nothing moves)",
@@ -17,6 +17,11 @@ PROP = dict(
                        "pause_reaches_all / resume_wakes_all (a round of Pause calls leaves the manager paused, a round of Resume calls unpaused)",
                        "no_panic: no PauseCh is ever closed (Pause may still be about to send on it)",
                        "pause_sticks (a Pause invoked while every Resume in progress is already collecting, with no later Resume, leaves the manager paused and the live workers acknowledging)"]),
+        # "...worker exit and SHUTDOWN can leave a caller or a worker blocked forever", with the pause held by the real disk watcher or by
+        # pause.Pause while stage workers are busy: the end-to-end stop driver of C03 (corpus only in the quick tier: its stop=paused and
+        # stop=diskpaused inputs); monitors 0 and 3 belong to this property
+        dict(driver="stop", corpus_from="C03", quick=0, thorough=60, shard=12, noshrink=True, only_monitors=[0, 3],
+             monitors=["stop_returns_without_crash", "(C03)", "(C03)", "all_stage_workers_returned"]),
     ],
     partial="The population of subscribers is fixed in the model (the stages subscribe at start-up, before any pause; a subscriber that joins "
             "while paused gets no token and is waited for by the next Resume - not modelled). 'Blocked forever' is stated without fairness: "
